@@ -1,14 +1,43 @@
-"""C04 (T2 part)."""
+"""C04 - layout follows the C rules; declared size == bytes read == bytes written."""
 from __future__ import annotations
 
 from checks.common import Report
 from checks.t2util import T2_ASSUMPTIONS, T2_RULE, programs_for, run_pipeline
+from pyvc.harness import run_cases
 
 
 def run(tier, seed):
     rep = Report("C04", tier, seed, "proof", "./vf check C04 --tier " + tier)
-    progs = programs_for(tier, seed)
-    run_pipeline(rep, progs, ["C04"])
-    rep.extra["rule"] = T2_RULE
-    rep.assumptions += T2_ASSUMPTIONS
+    from contracts import layout
+
+    specs = layout.specs(tier) + [("contracts.tables", "make_table", ("layout",)), ("contracts.cstructfns", "make_fn", ("make_array",)),
+                                  ("contracts.cstructfns", "make_fn", ("make_pointer",)), ("contracts.cstructfns", "make_fn", ("sizeof",)),
+                                  ("contracts.cstructfns", "make_fn", ("make_type",))]
+    rep.add_case_results(run_cases(specs), "T1")
+    progs = programs_for(tier, seed, pred=lambda p: True)
+    specs2 = [("t2.cases", "make_layout", (p.to_json(),)) for p in progs]
+    rep.add_case_results(run_cases(specs2), "T2")
+    fixed = [p for p in progs if _fixed(p)]
+    run_pipeline(rep, fixed, ["C04"])
+    rep.extra["rule"] = T2_RULE + "; T1 shapes: member kind x offset known/dynamic x explicit offset x mode x alignments {1,2,4,8,16}"
+    rep.extra["explanation"] = (
+        "T1: the loop body of _calculate_size_and_offsets processes one arbitrary member from an arbitrary invariant-satisfying state "
+        "exactly like the reference step (C placement: least multiple of the member alignment in aligned mode, back to back in packed "
+        "mode; bit-field unit rules of C06), the exit path pads to the least multiple of the largest alignment; unions: size = max "
+        "(rounded up), alignment = max; built-in type table against the C ABI (ctypes) and the documented choices; _make_array / "
+        "_make_pointer / sizeof. T2: per program the library's offsets/size/alignment equal the independent reference layout "
+        "(specs/layout.py) and consumed == dumped == len(T)."
+    )
+    rep.assumptions += T2_ASSUMPTIONS + [
+        "layout contract precondition: a storage type's size is a multiple of its alignment (checked per built-in type by the table "
+        "obligation size-multiple-of-alignment; it fails for the 24/48-bit types: known finding D13)",
+        "explicitly placed members (add_field(offset=...)) are constrained only as far as the C rules apply",
+    ]
     return rep
+
+
+def _fixed(p):
+    try:
+        return p.load(False).T.size is not None
+    except Exception:  # noqa: BLE001
+        return False
